@@ -6,10 +6,11 @@ sys.path.insert(0, ROOT); sys.path.insert(0, "/repo")
 sys.dont_write_bytecode = True
 props = [json.loads(l) for l in open(os.path.join(ROOT, "properties.jsonl"))]
 checks, na = [], []
+READY = open(os.path.join(ROOT, "tools", "ready.txt")).read().split()   # properties whose check is finished and registered
 for p in props:
     pid = p["id"]
     path = os.path.join(ROOT, "pbt", "props", pid.lower() + ".py")
-    if not os.path.exists(path):
+    if pid not in READY or not os.path.exists(path):
         na.append({"property_id": pid, "reason": "check not built yet (work in progress; property-based testing applies, see DESIGN.md)"})
         continue
     m = importlib.import_module("pbt.props." + pid.lower())
